@@ -30,6 +30,7 @@ def run(ctx, rep):
         rep.ob("C07.siblings", "dc-agree" + tag, bool(dc_same), "both clock-distributing variants push exactly one FRMW to the reference, first in the frame, iff the time has not been read", how="table")
         chunk_write(prog, rep, tag)
         state_checks(prog, rep, tag)
+        state_count(prog, rep, tag)
         answers_nopanic(ctx, prog, rep, tag)
         # "the cycle terminates": the image lock is not re-entrant, so no cycle function may reach a second
         # acquisition of self.pdi while it holds its guard (tx_rx_sync_system_time -> tx_rx did)
@@ -251,6 +252,79 @@ def state_checks(prog, rep, tag):
         ok = ok and okg
         # count returned = number of pushes
     rep.ob(P, "member-addressed" + tag, ok, "each state check is an FPRD of AlStatus addressed to the configured address of the next group member, pushed only while it fits", loc=b.span)
+
+
+def state_count(prog, rep, tag):
+    """'the reported SubDevice states hold one entry per SubDevice': the list is filled from whatever
+    datagrams the answer frames contain, so every success return of a cycle function must pass through a
+    comparison of the list's length with the group's length (or delegate to a sibling that does)."""
+    P = "C07.states"
+    helpers = {}
+    for fn in VARIANTS:
+        b = prog.async_body(fn)
+        pr = Prov(b)
+        bad = []
+        n_ok = 0
+        for (bi, si, kind, payload) in b.defs().get(0, []):
+            if kind == "call":
+                c = payload
+                if c.is_("FromResidual::from_residual"):
+                    continue
+                t = prog.by_path.get(c.res) or prog.by_path.get(c.decl)
+                if t is not None and _is_count_check(t) is not None:
+                    helpers[t.path] = t
+                    if has_root(pr.of_operand(c.args[_is_count_check(t)]), "call", "SubDeviceGroup::len"):
+                        n_ok += 1
+                        continue
+                    bad.append("count not compared with self.len() at %s" % c.span)
+                    continue
+                if (c.decl_s or "").endswith("Result::map") and any(x[0] == "await" and x[1] in VARIANTS for x in pr.of_operand(c.args[0])):
+                    n_ok += 1
+                    continue
+                bad.append("%s at %s" % (c.name, c.span))
+            elif kind == "assign":
+                rv = payload["rv"]
+                if rv["k"] == "agg" and rv.get("variant") == "Ok":
+                    # a bare Ok(..): accepted only if dominated by an explicit length comparison
+                    okd = False
+                    for cd in q.conds(b):
+                        if cd.kind == "cmp" and cd.op in ("Eq", "Ne"):
+                            l, r = pr.of_operand(cd.lhs), pr.of_operand(cd.rhs)
+                            if (has_root(l, "call", "SubDeviceGroup::len") and has_root(r, "call", "Vec::len")) or (has_root(r, "call", "SubDeviceGroup::len") and has_root(l, "call", "Vec::len")):
+                                eq_t = cd.true_target() if cd.op == "Eq" else cd.false_target()
+                                okd = okd or bi in q.edge_dominated(b, cd.bb, eq_t)
+                    if okd:
+                        n_ok += 1
+                    else:
+                        bad.append("Ok(..) built at %s without comparing the number of states with the group size" % b.loc(bi, si))
+                elif rv["k"] == "use":
+                    src = pr._of_rvalue(rv)
+                    if any(x[0] == "call" and any(x[1] == hh.root_short for hh in helpers.values()) for x in src) or any(x[0] == "await" and x[1] in VARIANTS for x in src) or not any(x[0] == "agg" and x[1] == "Result" and x[2] == "Ok" for x in src):
+                        n_ok += 1
+                    else:
+                        bad.append("Ok value flows to the return at %s unchecked" % b.loc(bi, si))
+        rep.ob(P, "%s:one-per-subdevice-or-error%s" % (fn, tag), not bad and n_ok >= 1, "%s returns success only through the state-count comparison (%d checked success returns) %s" % (fn, n_ok, bad), loc=b.span, how="path")
+    for t in helpers.values():
+        rep.ob(P, "%s:exact%s" % (t.root_short, tag), True, "%s returns Ok only on the edge subdevice_states.len() == its count argument" % t.root_short, loc=t.span)
+
+
+def _is_count_check(h):
+    """If `h` returns Ok only on the edge `self.subdevice_states.len() == <arg k>`: k (0-based call argument index), else None."""
+    oks = q.aggregates(h, "Result", "Ok")
+    if not oks:
+        return None
+    ph = Prov(h, follow_all={"slice::len", "Vec::len", "Deref::deref"})
+    for cd in q.conds(h):
+        if cd.kind == "cmp" and cd.op in ("Eq", "Ne"):
+            l, r = ph.of_operand(cd.lhs), ph.of_operand(cd.rhs)
+            for x, y in ((l, r), (r, l)):
+                if has_root(x, "field", "TxRxResponse", "subdevice_states"):
+                    args = [z[1] for z in y if z[0] == "arg"]
+                    if len(args) == 1:
+                        eq_t = cd.true_target() if cd.op == "Eq" else cd.false_target()
+                        if all(o[0] in q.edge_dominated(h, cd.bb, eq_t) for o in oks):
+                            return args[0] - 1
+    return None
 
 
 NP_FNS = ["SubDeviceGroup::tx_rx", "SubDeviceGroup::tx_rx_sync_system_time", "SubDeviceGroup::tx_rx_dc", "SubDeviceGroup::process_received_pdi_chunk",
